@@ -38,6 +38,30 @@ EXCEPTIONS = {
 }
 
 
+def _may_alias(facts, body, n1, n2):
+    """n1 and n2 name two parameters (or captured parameters) of the enclosing function that have the same reference type"""
+    from ..common import root_fn
+    rb = root_fn(body)
+    tys = {}
+    for i in range(1, rb.mir.argc + 1):
+        nm = rb.local_name(i)
+        if nm in (n1, n2):
+            tys[nm] = rb.local_ty(i).replace("&mut ", "&")
+    return len(tys) == 2 and len(set(tys.values())) == 1 and list(tys.values())[0].startswith("&")
+
+
+def _alias_excluded(facts, body, block):
+    from ..common import root_fn, closure_sites
+    def at(b, blk):
+        return any(l.kind == "call" and l.truth is False and l.term[4] is not None and l.term[4].path.endswith("ptr::eq")
+                   for l in lits_of(b, blk, facts))
+    if at(body, block):
+        return True
+    if body.kind == "closure":
+        return any(at(s.body, s.block) for s in closure_sites(facts, body)) if closure_sites(facts, body) else False
+    return False
+
+
 def _origin_name(origin):
     if isinstance(origin, tuple):
         return origin[0].path
@@ -78,14 +102,24 @@ def run(facts, res):
                     h = bl.acqs[tok]
                     if h.cls != cls:
                         continue
+                    aliased = None
                     if h.base != "?" and base != "?" and h.base != base:
-                        continue   # different replicas (self / other)
+                        # different replicas (self / other) - unless both names are parameters of one reference type, which a caller
+                        # may bind to the same replica (`r.meld(&r)`): then the pair is one lock, except where the function has excluded
+                        # the aliasing (`std::ptr::eq(self, other)` answered false on the way to the first acquisition)
+                        if not _may_alias(facts, body, h.base, base) or _alias_excluded(facts, body, h.block):
+                            continue
+                        aliased = (h.base, base)
                     if tok in inside:
                         continue   # reached through the held guard: a different lock (ownership tree)
                     c = conflict(h.kind, h.mode, mode)
                     callee = _origin_name(origin)
                     tgt = callee if callee != "lock" else "lock"
                     subj = "%s->%s|%s.%s" % (p, tgt, cls, c)
+                    if aliased:
+                        if c == "read-under-read":
+                            continue
+                        subj += "|if-%s-is-%s" % tuple(sorted(aliased))
                     if c == "read-under-read":
                         rur.append((p, cls, site, subj))
                         continue
